@@ -122,16 +122,20 @@ def slice_adt_fields(F, fn, op, adt_suffix, depth=0, _seen=None, max_nodes=600):
                             continue
                         _seen.add(k)
                         out |= slice_adt_fields(F, g, t["args"][local - 1], adt_suffix, depth + 1, _seen)
-        if local == 1 and fn.get("owner") and fn.get("def_kind") == "Closure" and depth < 3:
-            # the environment of a closure: continue with what the enclosing function captured into it
-            own = F.fns.get(fn["owner"])
+        if local == 1 and fn.get("owner") and fn.get("def_kind") == "Closure" and depth < 4:
+            # the environment of a closure: continue with what the enclosing body (the owner function or a closure of it, for a
+            # closure nested in a closure) captured into it; a hop through an environment is not a call level
             k = (fn["path"], "env")
-            if own is not None and k not in _seen:
+            if k not in _seen:
                 _seen.add(k)
-                for bi, si, s in mir.stmts(own):
-                    if s["rv"]["k"] == "agg" and s["rv"].get("closure") == fn["path"]:
-                        for o in s["rv"]["ops"]:
-                            out |= slice_adt_fields(F, own, o, adt_suffix, depth + 1, _seen)
+                top = F.fns.get(fn["owner"])
+                hosts = [top] if top is not None else []
+                hosts += [c for c in F.fns.values() if c.get("owner") == fn["owner"] and c["path"] != fn["path"]]
+                for own in hosts:
+                    for bi, si, s in mir.stmts(own):
+                        if s["rv"]["k"] == "agg" and s["rv"].get("closure") == fn["path"]:
+                            for o in s["rv"]["ops"]:
+                                out |= slice_adt_fields(F, own, o, adt_suffix, depth, _seen)
         for d in du.defs.get(local, []) + du.partial.get(local, []):
             if d[0] == "call":
                 t = d[3]
